@@ -9,8 +9,14 @@
     tokens)*], the RightDelim item and EOF (each with its END offset).
   * `print_cmd_roundtrip_bytes`: … and the file parser's `parsePrint` (→ `printLoop` → `directiveArgs`, Model/FileParser) on these
     items behind the `{` gives the print node back modulo positions (expression, directive names, directive arguments), leaving
-    EOF; `print_cmd_injective_bytes`: two print commands with the same text are the same command.  The TAG ALONE: `beginTag`'s
-    dispatch to `parsePrint`, and the template / file around the tag, are not covered.
+    EOF; `print_cmd_injective_bytes`: two print commands with the same text are the same command.
+  * `print_cmd_file_roundtrip` (FILE level): `parse.SoyFile` (`parseSource` = lexer ∘ `itemList(itemEOF)`) on the printed text
+    returns exactly [the print node] modulo positions; `print_cmd_file_injective`.  Below it `beginTag_print` (the dispatch to
+    `parsePrint` for every first token of a printed expression, `headTypes`/`pieces_head`), `textOrTag_print` (any `untl`
+    without `{` and without a first token), `itemList_print`, `itemList_print_until` (inside a block) and `template_print`
+    (TOKEN level: `{template .t}` tag `{/template}` gives the template node whose body is [the print node]).
+    Not covered: the BYTE level of a frame with other tags around the print tag (`{namespace}`, soydoc, `{template}`: the
+    lexer lemma layer of C17b fixes `tagStart = 0`, i.e. the tag at the start of the input).
   Hypotheses: `NamesOk ff` of the expression and of every directive argument (Lemmas/LexPrintNames), and `DirNameOk`:
   the directive name is an identifier as the lexer reads it after `|` (ASCII letter or `_`, then letters / digits / `_`
   of any script) that is not a word of `builtinIdents` (`{$x|call}`, `{$x|if:1}` are rejected by the real parser too:
@@ -741,6 +747,237 @@ theorem fuel_ok (arg : Expr) (dirs : List Directive) (n : Nat) (hn : (unsp (piec
 
 end
 
+/-! ## from the tag to the FILE: `beginTag`, `textOrTag`, `itemList`, `parse.SoyFile` -/
+
+section
+open SoyVerif.Model.FileParser (FState FP liftP parsePrint Node NodeList beginTag textOrTag itemListLoop skipComments
+  parseFile parseSource)
+open SoyVerif.Lemmas.ParserRound
+
+theorem fnext_at {st : FState} {t : Tk} {ts : List Tk} (h : At st.p (t :: ts)) :
+    ∃ it p', FileParser.next st = .ok (it, { st with p := p' }) ∧ it.typ = t.typ ∧ it.val = t.val ∧ Just p' it ts := by
+  obtain ⟨it, p', hn, a, b, c⟩ := next_at h
+  exact ⟨it, p', liftP_ok hn, a, b, c⟩
+
+theorem fbackup_just {st : FState} {it : Item} {ts : List Tk} (h : Just st.p it ts) :
+    ∃ p', FileParser.backup st = .ok ((), { st with p := p' }) ∧ At1 p' (it.tk :: ts) := by
+  obtain ⟨p', hb, a⟩ := backup_just h
+  exact ⟨p', liftP_ok hb, a⟩
+
+theorem tk_eq {it : Item} {t : Tk} (h1 : it.typ = t.typ) (h2 : it.val = t.val) : it.tk = t := by
+  cases t; cases it; simp_all [Item.tk]
+
+theorem skipComments_id (f : Nat) (token : Item) (st : FState) (h : token.typ ≠ .tComment) :
+    skipComments (f + 1) token st = .ok (token, st) := by
+  unfold skipComments
+  have : (token.typ == ItemType.tComment) = false := by simpa using h
+  simp [this, pure, StateT.pure, Except.pure]
+
+variable (ff : UInt64 → Bytes) (pf : Bytes → Option UInt64) (T : TableOK)
+
+omit T in
+/-- the token stream of a print command's body begins with a token of `headTypes` -/
+theorem body_head (arg : Expr) (dirs : List Directive) :
+    ∃ t r, unsp (piecesBody ff arg dirs) = t :: r ∧ t.typ ∈ headTypes := by
+  obtain ⟨t, hh, hty⟩ := pieces_head ff arg
+  unfold piecesBody
+  cases hp : pieces ff arg with
+  | nil => rw [hp] at hh; cases hh
+  | cons x ps =>
+    rw [hp] at hh
+    simp only [List.head?_cons, Option.some.injEq] at hh
+    subst hh
+    exact ⟨t, _, rfl, hty⟩
+
+include T
+
+/-- `beginTag` (the `{` has been read) on the tokens of a printed print command: whatever token the printed expression
+    begins with — `(` `[` `-` `not` `null` a boolean, an identifier, `$ident`, an integer, a float, a string —, the
+    dispatch takes the implicit-print arm, backs that token up and `parsePrint` gives the print node back; the node's
+    position is that first token's -/
+theorem beginTag_print (arg : Expr) (dirs : List Directive) (hC : CmdCanon ff pf arg dirs) (ef fuel : Nat)
+    (hE : ExprFuel ff ef arg dirs) (hf : ∀ d ∈ dirs, d.args.length + dirs.length + 1 < fuel) (hf' : dirs.length < fuel)
+    (rest : List Tk) (st : FState) (hst : At st.p (unsp (piecesBody ff arg dirs) ++ tRD :: rest)) :
+    ∃ pos e' ds' p2, beginTag pf ef (fuel + 1) st = .ok (some (Node.print pos e' ds'), { st with p := p2 }) ∧
+      erase e' = erase arg ∧ ds'.map eraseDir = dirs.map eraseDir ∧ At p2 rest := by
+  obtain ⟨t, r, hr, hty⟩ := body_head ff arg dirs
+  have hst1 : At st.p (t :: (r ++ tRD :: rest)) := by rw [hr] at hst; simpa using hst
+  obtain ⟨it, p1, hn, hity, hiv, hj⟩ := fnext_at hst1
+  obtain ⟨p2, hb, ha1⟩ := fbackup_just (st := { st with p := p1 }) hj
+  rw [tk_eq hity hiv, ← List.cons_append, ← hr] at ha1
+  obtain ⟨e', ds', p3, hpp, he, hd, ha⟩ := parsePrint_rt ff pf T arg dirs hC ef fuel hE hf hf' it rest
+    { st with p := p2 } ha1.at
+  refine ⟨it.pos, e', ds', p3, ?_, he, hd, ha⟩
+  unfold beginTag
+  rw [fbind_ok hn]
+  rw [← hity] at hty
+  simp only [headTypes, List.mem_cons, List.not_mem_nil, or_false] at hty
+  rcases hty with h | h | h | h | h | h | h | h | h | h | h <;>
+    (simp only [h]; rw [fbind_ok hb, fbind_ok hpp]; rfl)
+
+/-- `textOrTag` handed the `{` of a printed print command (`untl` holds neither `{` nor a first token of an expression) -/
+theorem textOrTag_print (arg : Expr) (dirs : List Directive) (hC : CmdCanon ff pf arg dirs) (ef fuel : Nat)
+    (hE : ExprFuel ff ef arg dirs) (hf : ∀ d ∈ dirs, d.args.length + dirs.length + 1 < fuel) (hf' : dirs.length < fuel)
+    (untl : List ItemType) (hu1 : untl.contains .tLeftDelim = false) (hu2 : ∀ t ∈ headTypes, untl.contains t = false)
+    (token : Item) (htok : token.typ = .tLeftDelim)
+    (rest : List Tk) (st : FState) (hst : At st.p (unsp (piecesBody ff arg dirs) ++ tRD :: rest)) :
+    ∃ pos e' ds' p2, textOrTag pf ef (fuel + 2) token untl st =
+        .ok ((some (Node.print pos e' ds'), false), { st with p := p2 }) ∧
+      erase e' = erase arg ∧ ds'.map eraseDir = dirs.map eraseDir ∧ At p2 rest := by
+  obtain ⟨t, r, hr, hty⟩ := body_head ff arg dirs
+  have hst1 : At st.p (t :: (r ++ tRD :: rest)) := by rw [hr] at hst; simpa using hst
+  obtain ⟨it, p1, hn, hity, hiv, hj⟩ := fnext_at hst1
+  obtain ⟨p2, hb, ha1⟩ := fbackup_just (st := { st with p := p1 }) hj
+  rw [tk_eq hity hiv, ← List.cons_append, ← hr] at ha1
+  obtain ⟨pos, e', ds', p3, hbt, he, hd, ha⟩ := beginTag_print ff pf T arg dirs hC ef fuel hE hf hf' rest
+    { st with p := p2 } ha1.at
+  refine ⟨pos, e', ds', p3, ?_, he, hd, ha⟩
+  unfold textOrTag
+  simp only
+  rw [fbind_ok (skipComments_id fuel token st (by rw [htok]; decide))]
+  simp only [htok, hu1, Bool.false_eq_true, if_false]
+  rw [fbind_ok hn]
+  simp only [hity, hu2 t.typ hty, Bool.and_false, Bool.false_eq_true, if_false]
+  rw [fbind_ok hb]
+  simp only [show (ItemType.tLeftDelim == ItemType.tText) = false by decide, Bool.false_eq_true, if_false,
+    beq_self_eq_true, if_true]
+  rw [fbind_ok hbt]
+  rfl
+
+/-- `itemList(itemEOF)` — the top level of `parse.SoyFile` — on `{`, the tokens of a printed print command, `}`, EOF:
+    the list with the one print node -/
+theorem itemList_print (arg : Expr) (dirs : List Directive) (hC : CmdCanon ff pf arg dirs) (ef fuel : Nat)
+    (hE : ExprFuel ff ef arg dirs) (hf : ∀ d ∈ dirs, d.args.length + dirs.length + 1 < fuel) (hf' : dirs.length < fuel)
+    (st : FState)
+    (hst : At st.p (⟨.tLeftDelim, [123]⟩ :: (unsp (piecesBody ff arg dirs) ++ [tRD, ⟨.tEOF, []⟩]))) :
+    ∃ lpos pos e' ds' st', itemListLoop pf ef (fuel + 3) [.tEOF] none .nil st =
+        .ok (.list lpos (.cons (Node.print pos e' ds') .nil), st') ∧
+      erase e' = erase arg ∧ ds'.map eraseDir = dirs.map eraseDir := by
+  obtain ⟨k, rfl⟩ : ∃ k, fuel = k + 1 := ⟨fuel - 1, by omega⟩
+  obtain ⟨ld, p1, hn1, hlt, _, hj1⟩ := fnext_at hst
+  obtain ⟨pos, e', ds', p2, hto, he, hd, ha⟩ := textOrTag_print ff pf T arg dirs hC ef (k + 1) hE hf hf' [.tEOF]
+    (by decide) (by decide) ld hlt [⟨.tEOF, []⟩] { st with p := p1 } (by simpa using hj1.at)
+  obtain ⟨eo, p3, hn2, het, _, _⟩ := fnext_at (st := { st with p := p2 }) ha
+  have het' : eo.typ = .tEOF := het
+  have hun : textOrTag pf ef (k + 1 + 1) eo [.tEOF] { st with p := p3 } = .ok ((none, true), { st with p := p3 }) := by
+    unfold textOrTag
+    simp only
+    rw [fbind_ok (skipComments_id k eo _ (by rw [het']; decide))]
+    simp only [het']
+    rfl
+  refine ⟨ld.pos, pos, e', ds', { st with p := p3 }, ?_, he, hd⟩
+  unfold itemListLoop
+  rw [fbind_ok hn1]
+  simp only
+  rw [fbind_ok hto]
+  simp only [Bool.false_eq_true, if_false]
+  unfold itemListLoop
+  rw [fbind_ok hn2]
+  simp only
+  rw [fbind_ok hun]
+  rfl
+
+/-- `itemList(untl…)` inside a block — e.g. `itemList(itemTemplateEnd)`, the body of a template — on `{`, the tokens of a
+    printed print command, `}` and the closing command `{` `cl` (`cl` an until token): the list with the one print
+    node; the stream is left behind `cl` -/
+theorem itemList_print_until (arg : Expr) (dirs : List Directive) (hC : CmdCanon ff pf arg dirs) (ef fuel : Nat)
+    (hE : ExprFuel ff ef arg dirs) (hf : ∀ d ∈ dirs, d.args.length + dirs.length + 1 < fuel) (hf' : dirs.length < fuel)
+    (untl : List ItemType) (hu1 : untl.contains .tLeftDelim = false) (hu2 : ∀ t ∈ headTypes, untl.contains t = false)
+    (cl : Tk) (hcl : untl.contains cl.typ = true) (rest : List Tk) (st : FState)
+    (hst : At st.p (⟨.tLeftDelim, [123]⟩ :: (unsp (piecesBody ff arg dirs) ++ tRD :: ⟨.tLeftDelim, [123]⟩ :: cl :: rest))) :
+    ∃ lpos pos e' ds' p', itemListLoop pf ef (fuel + 3) untl none .nil st =
+        .ok (.list lpos (.cons (Node.print pos e' ds') .nil), { st with p := p' }) ∧
+      erase e' = erase arg ∧ ds'.map eraseDir = dirs.map eraseDir ∧ At p' rest := by
+  obtain ⟨k, rfl⟩ : ∃ k, fuel = k + 1 := ⟨fuel - 1, by omega⟩
+  obtain ⟨ld, p1, hn1, hlt, _, hj1⟩ := fnext_at hst
+  obtain ⟨pos, e', ds', p2, hto, he, hd, ha⟩ := textOrTag_print ff pf T arg dirs hC ef (k + 1) hE hf hf' untl
+    hu1 hu2 ld hlt (⟨.tLeftDelim, [123]⟩ :: cl :: rest) { st with p := p1 } hj1.at
+  obtain ⟨l2, p3, hn2, hl2, _, hj3⟩ := fnext_at (st := { st with p := p2 }) ha
+  have hl2' : l2.typ = .tLeftDelim := hl2
+  obtain ⟨c, p4, hn3, hct, _, hj4⟩ := fnext_at (st := { st with p := p3 }) hj3.at
+  have hun : textOrTag pf ef (k + 1 + 1) l2 untl { st with p := p3 } = .ok ((none, true), { st with p := p4 }) := by
+    unfold textOrTag
+    simp only
+    rw [fbind_ok (skipComments_id k l2 _ (by rw [hl2']; decide))]
+    simp only [hl2', hu1, Bool.false_eq_true, if_false]
+    rw [fbind_ok hn3]
+    simp only [hct, hcl, beq_self_eq_true, Bool.and_self, if_true]
+    rfl
+  refine ⟨ld.pos, pos, e', ds', p4, ?_, he, hd, hj4.at⟩
+  unfold itemListLoop
+  rw [fbind_ok hn1]
+  simp only
+  rw [fbind_ok hto]
+  simp only [Bool.false_eq_true, if_false]
+  unfold itemListLoop
+  rw [fbind_ok hn2]
+  simp only
+  rw [fbind_ok hun]
+  rfl
+
+omit T in
+theorem fexpect_at {st : FState} {t : Tk} {ts : List Tk} (h : At st.p (t :: ts)) :
+    ∃ it p', FileParser.expect t.typ st = .ok (it, { st with p := p' }) ∧ it.typ = t.typ ∧ it.val = t.val ∧ Just p' it ts := by
+  obtain ⟨it, p', hn, a, b, c⟩ := expect_at h
+  exact ⟨it, p', liftP_ok hn, a, b, c⟩
+
+/-- a TEMPLATE around the tag, token level: `beginTag` on `template` `.name` `}` `{` the printed print command `}` `{`
+    `/template` `}` gives the template node (no attributes: autoescape unspecified, not private) whose body is the list
+    with the one print node -/
+theorem template_print (arg : Expr) (dirs : List Directive) (hC : CmdCanon ff pf arg dirs) (ef fuel : Nat)
+    (hE : ExprFuel ff ef arg dirs) (hf : ∀ d ∈ dirs, d.args.length + dirs.length + 1 < fuel) (hf' : dirs.length < fuel)
+    (tv ev name : Bytes) (rest : List Tk) (st : FState)
+    (hst : At st.p (⟨.tTemplate, tv⟩ :: ⟨.tDotIdent, name⟩ :: tRD :: ⟨.tLeftDelim, [123]⟩ ::
+      (unsp (piecesBody ff arg dirs) ++ tRD :: ⟨.tLeftDelim, [123]⟩ :: ⟨.tTemplateEnd, ev⟩ :: tRD :: rest))) :
+    ∃ tpos lpos pos e' ds' p', beginTag pf ef (fuel + 5) st =
+        .ok (some (Node.template tpos (st.ns ++ name) (.list lpos (.cons (Node.print pos e' ds') .nil)) .unspecified false),
+          { st with p := p' }) ∧
+      erase e' = erase arg ∧ ds'.map eraseDir = dirs.map eraseDir ∧ At p' rest := by
+  obtain ⟨tt, p1, hn1, htt, _, hj1⟩ := fnext_at hst
+  have htt' : tt.typ = .tTemplate := htt
+  obtain ⟨di, p2, hx2, _, hdv, hj2⟩ := fexpect_at (st := { st with p := p1 }) hj1.at
+  have hdv' : di.val = name := hdv
+  obtain ⟨r1, p3, hn3, hr1, hr1v, hj3⟩ := fnext_at (st := { st with p := p2 }) hj2.at
+  have hr1' : r1.typ = .tRightDelim := hr1
+  obtain ⟨p4, hb4, ha4⟩ := fbackup_just (st := { st with p := p3 }) hj3
+  rw [tk_eq hr1 hr1v] at ha4
+  obtain ⟨_, p5, hx5, _, _, hj5⟩ := fexpect_at (st := { st with p := p4 }) ha4.at
+  obtain ⟨lpos, pos, e', ds', p6, hil, he, hd, ha6⟩ := itemList_print_until ff pf T arg dirs hC ef fuel hE hf hf'
+    [.tTemplateEnd] (by decide) (by decide) ⟨.tTemplateEnd, ev⟩ (by simp) (tRD :: rest) { st with p := p5 } hj5.at
+  obtain ⟨_, p7, hx7, _, _, hj7⟩ := fexpect_at (st := { st with p := p6 }) ha6
+  refine ⟨tt.pos, lpos, pos, e', ds', p7, ?_, he, hd, hj7.at⟩
+  have hpa : FileParser.parseAttrs [FileParser.kAutoescape, FileParser.kPrivate, FileParser.kKind] (fuel + 3) []
+      { st with p := p2 } = .ok ([], { st with p := p4 }) := by
+    unfold FileParser.parseAttrs
+    rw [fbind_ok hn3]
+    simp only [hr1', show (ItemType.tRightDelim == ItemType.tIdent) = false by decide, Bool.false_eq_true, if_false,
+      beq_self_eq_true, Bool.true_or, if_true]
+    rw [fbind_ok hb4]
+    rfl
+  have hx2' : FileParser.expect .tDotIdent { st with p := p1 } = .ok (di, { st with p := p2 }) := hx2
+  have hx5' : FileParser.expect .tRightDelim { st with p := p4 } = .ok (_, { st with p := p5 }) := hx5
+  have hx7' : FileParser.expect .tRightDelim { st with p := p6 } = .ok (_, { st with p := p7 }) := hx7
+  have hpt : FileParser.parseTemplate pf ef (fuel + 4) tt { st with p := p1 } =
+      .ok (Node.template tt.pos (st.ns ++ name) (.list lpos (.cons (Node.print pos e' ds') .nil)) .unspecified false,
+        { st with p := p7 }) := by
+    unfold FileParser.parseTemplate
+    rw [fbind_ok hx2', fbind_ok hpa]
+    simp only [FileParser.parseAutoescape, FileParser.boolAttr, FileParser.lookup, List.find?_nil, Option.map_none,
+      Option.getD_none, beq_self_eq_true, if_true]
+    rw [fbind_ok (show (pure _ : FP Autoescape) { st with p := p4 } = .ok (_, { st with p := p4 }) from rfl)]
+    rw [fbind_ok (show (pure false : FP Bool) { st with p := p4 } = .ok (_, { st with p := p4 }) from rfl)]
+    rw [fbind_ok hx5', fbind_ok hil]
+    rw [fbind_ok (show (get : FP FState) { st with p := p6 } = .ok ({ st with p := p6 }, { st with p := p6 }) from rfl)]
+    rw [fbind_ok hx7', hdv']
+    rfl
+  unfold beginTag
+  rw [fbind_ok hn1]
+  simp only [htt']
+  rw [fbind_ok hpt]
+  rfl
+
+end
+
 /-! ## from bytes to the print node, and injectivity -/
 
 section
@@ -790,6 +1027,56 @@ theorem print_cmd_injective_bytes (a b : Expr) (da db : List Directive) (hNa : C
   injection hp1 with hp1
   simp only [Prod.mk.injEq, Node.print.injEq] at hp1
   obtain ⟨⟨_, rfl, rfl⟩, _⟩ := hp1
+  exact ⟨by rw [← he1, ← he2], by rw [← hd1, ← hd2]⟩
+
+end
+
+/-! ## the FILE -/
+
+section
+open SoyVerif.Model.FileParser (Node parseSource parseFile)
+variable (ff : UInt64 → Bytes) (pf : Bytes → Option UInt64) (LT : LexTableOK) (T : TableOK)
+include LT T
+
+/-- C17 for PRINT COMMANDS, from bytes to tree, FILE level: `parse.SoyFile` (lexer ∘ parser, `parseSource`) on the
+    text `PrintNode.String()` writes returns the file whose node list is exactly the one print node, and that node is
+    the printed one modulo positions — the expression, and every directive with its name and its arguments.
+    (The frame is the one of C15c's `body_source_spec`: the model's `parse.SoyFile` does not ask for a
+    `{namespace}`/`{template}` around the body — neither does the code: parse.SoyFile is `itemList(itemEOF)`.) -/
+theorem print_cmd_file_roundtrip (arg : Expr) (dirs : List Directive) (hN : CmdOk ff arg dirs)
+    (hC : CmdCanon ff pf arg dirs) :
+    ∃ pos e' ds', parseSource pf (printPrint ff arg dirs) = .ok [Node.print pos e' ds'] ∧
+      erase e' = erase arg ∧ ds'.map eraseDir = dirs.map eraseDir := by
+  obtain ⟨items, hl, ht⟩ := lex_print_cmd ff LT arg dirs hN
+  have hlen : (unsp (piecesBody ff arg dirs)).length ≤ items.length := by
+    have := congrArg List.length ht
+    simp at this; omega
+  obtain ⟨f1, f2, f3⟩ := fuel_ok ff arg dirs items.length hlen
+  have hE : ExprFuel ff (FileParser.exprFuel items) arg dirs := by
+    simp only [FileParser.exprFuel, Parser.fuelFor]
+    exact ⟨by have := f1.1; omega, fun d hd a ha => by have := f1.2 d hd a ha; omega⟩
+  obtain ⟨lpos, pos, e', ds', st', hrun, he, hd⟩ := itemList_print ff pf T arg dirs hC (FileParser.exprFuel items)
+    (8 * items.length + 61) hE (fun d hd => by have := f2 d hd; omega) (by omega) { p := initState items }
+    (by have := at_init items; rw [ht] at this; simpa [tRD] using this)
+  refine ⟨pos, e', ds', ?_, he, hd⟩
+  unfold parseSource
+  rw [hl]
+  simp only
+  unfold parseFile
+  simp only [StateT.run, FileParser.fuelFor]
+  rw [hrun]
+  rfl
+
+/-- two print commands whose texts `parse.SoyFile` reads … the same FILE text means the same command -/
+theorem print_cmd_file_injective (a b : Expr) (da db : List Directive) (hNa : CmdOk ff a da) (hNb : CmdOk ff b db)
+    (hCa : CmdCanon ff pf a da) (hCb : CmdCanon ff pf b db)
+    (h : parseSource pf (printPrint ff a da) = parseSource pf (printPrint ff b db)) :
+    erase a = erase b ∧ da.map eraseDir = db.map eraseDir := by
+  obtain ⟨p1, e1, d1, h1, he1, hd1⟩ := print_cmd_file_roundtrip ff pf LT T a da hNa hCa
+  obtain ⟨p2, e2, d2, h2, he2, hd2⟩ := print_cmd_file_roundtrip ff pf LT T b db hNb hCb
+  rw [h1, h2] at h
+  simp only [Except.ok.injEq, List.cons.injEq, Node.print.injEq, and_true] at h
+  obtain ⟨_, rfl, rfl⟩ := h
   exact ⟨by rw [← he1, ← he2], by rw [← hd1, ← hd2]⟩
 
 end
